@@ -36,6 +36,12 @@ What is read from the *source text* (``ast``), fail closed:
   (``wsgi_ok_status``, ``wsgi_ok_default_after_serialise``); in
   ``handle_error`` where the status of a fault comes from
   (``wsgi_error_status``).
+* ``XmlDocument.fault_to_parent`` / ``Soap12.fault_to_parent`` (pin, nothing emitted): followed
+  through private helpers of the same class that receive ``inst``, the text handed to the
+  ``faultcode`` / ``faultstring`` / ``faultactor`` resp. ``Text`` (+ ``lang``) / ``Role`` element
+  constructors is the fault's own attribute (``'%s:%s' % (self.soap_env, inst.faultcode)`` for the
+  code) — any call, conversion or conditional in between is a transformation the hand-written
+  serialiser model does not have, and is refused.
 """
 import ast, os, importlib
 
@@ -664,6 +670,120 @@ def wsgi_tables(repo):
     return h_first, h_ser, join_in_try, defaults[0][1], after, es[0]
 
 
+# ------------------------------------------------------------------ the XML fault writers (pin)
+def elt_local_name(n):
+    """first argument of an E(...) call -> local element name: "name" or "{%s}Name" % <ns expr>"""
+    if isinstance(n, ast.Constant) and isinstance(n.value, str):
+        return n.value.rsplit('}', 1)[-1]
+    if isinstance(n, ast.BinOp) and isinstance(n.op, ast.Mod) and isinstance(n.left, ast.Constant) \
+            and isinstance(n.left.value, str) and n.left.value.startswith('{%s}'):
+        return n.left.value[4:]
+    return None
+
+
+def fault_writer_calls(cls, fname, what):
+    """every E(<name>, ...) call reachable from cls.<fname> through private helpers of the same class
+    that are called as self._helper(<the fault instance>): [(local name, call, aliases of `inst`)]"""
+    out, seen = [], set()
+
+    def walk(fn, aliases, depth):
+        if depth > 3 or fn.name in seen:
+            raise TranslateError('%s: helper chain too deep or recursive' % what)
+        seen.add(fn.name)
+        for n in ast.walk(fn):
+            if isinstance(n, ast.Assign) and any(isinstance(t, ast.Name) and t.id in aliases for t in n.targets):
+                raise TranslateError('%s: the fault instance is re-bound in %s' % (what, fn.name))
+            if not isinstance(n, ast.Call):
+                continue
+            if isinstance(n.func, ast.Name) and n.func.id == 'E' and n.args:
+                out.append((elt_local_name(n.args[0]), n, set(aliases), fn))
+            ch = attr_chain(n.func)
+            if ch and len(ch) == 2 and ch[0] == 'self' and ch[1].startswith('_') and not ch[1].startswith('__'):
+                passed = [i for i, a in enumerate(n.args) if isinstance(a, ast.Name) and a.id in aliases]
+                if not passed and not any(isinstance(k.value, ast.Name) and k.value.id in aliases for k in n.keywords):
+                    continue                # does not see the fault: cannot write its fields
+                if n.keywords and any(isinstance(k.value, ast.Name) and k.value.id in aliases for k in n.keywords):
+                    raise TranslateError('%s: fault instance passed by keyword to %s' % (what, ch[1]))
+                try:
+                    helper = find_def(cls.body, ch[1])
+                except TranslateError:
+                    continue                # inherited (e.g. _fault_to_parent_impl): pinned where it is defined
+                params = [a.arg for a in helper.args.args][1:]
+                walk(helper, {params[i] for i in passed if i < len(params)}, depth + 1)
+    fn = find_def(cls.body, fname)
+    if 'inst' not in [a.arg for a in fn.args.args]:
+        raise TranslateError('%s: no `inst` parameter' % what)
+    walk(fn, {'inst'}, 0)
+    return out
+
+
+def pin_verbatim(calls, name, attr, what, fmt_code=False, kw=None):
+    hits = [c for c in calls if c[0] == name]
+    if len(hits) != 1:
+        raise TranslateError('%s: expected exactly one %s element constructor, found %d' % (what, name, len(hits)))
+    _, call, aliases, fn = hits[0]
+    if len(call.args) != 2:
+        raise TranslateError('%s: %s is not built from exactly one text argument' % (what, name))
+    v = call.args[1]
+    # a single-assignment temporary of the enclosing function is looked through
+    if isinstance(v, ast.Name) and v.id not in aliases:
+        asg = [st for st in ast.walk(fn) if isinstance(st, ast.Assign) and any(binds(t, v.id) for t in st.targets)]
+        others = [st for st in ast.walk(fn) if not isinstance(st, ast.Assign) and st is not fn
+                  and isinstance(st, (ast.For, ast.With, ast.AugAssign, ast.ExceptHandler, ast.Import, ast.ImportFrom))
+                  and binds(st, v.id)]
+        if len(asg) != 1 or others or len(asg[0].targets) != 1 or not isinstance(asg[0].targets[0], ast.Name):
+            raise TranslateError('%s: the text of %s is not the fault attribute itself' % (what, name))
+        v = asg[0].value
+
+    def is_attr(x, a):
+        ch = attr_chain(x)
+        return bool(ch) and len(ch) == 2 and ch[0] in aliases and ch[1] == a
+    if fmt_code:
+        ok = isinstance(v, ast.BinOp) and isinstance(v.op, ast.Mod) and isinstance(v.left, ast.Constant) \
+            and v.left.value == '%s:%s' and isinstance(v.right, ast.Tuple) and len(v.right.elts) == 2 \
+            and attr_chain(v.right.elts[0]) == ['self', 'soap_env'] and is_attr(v.right.elts[1], attr)
+    else:
+        ok = is_attr(v, attr)
+    if not ok:
+        raise TranslateError('%s: the text of <%s> is not the fault\'s own %s but %s'
+                             % (what, name, attr, ast.dump(v)[:100]))
+    if kw is None:
+        if call.keywords:
+            raise TranslateError('%s: unexpected attributes on <%s>' % (what, name))
+    else:
+        # **{'{%s}lang' % NS_XML: inst.lang}   or   an equivalent single keyword
+        if len(call.keywords) != 1:
+            raise TranslateError('%s: expected exactly the %s attribute on <%s>' % (what, kw[0], name))
+        k = call.keywords[0]
+        if k.arg is None and isinstance(k.value, ast.Dict) and len(k.value.keys) == 1:
+            key, val = k.value.keys[0], k.value.values[0]
+            kn = elt_local_name(key)
+        else:
+            kn, val = k.arg, k.value
+        if kn != kw[0] or not is_attr(val, kw[1]):
+            raise TranslateError('%s: attribute %s of <%s> is not the fault\'s own %s' % (what, kw[0], name, kw[1]))
+
+
+def xml_fault_writers(repo):
+    xcls = find_class(parse(repo, 'spyne/protocol/xml.py'), 'XmlDocument')
+    calls = fault_writer_calls(xcls, 'fault_to_parent', 'XmlDocument.fault_to_parent')
+    pin_verbatim(calls, 'faultcode', 'faultcode', 'XmlDocument.fault_to_parent', fmt_code=True)
+    pin_verbatim(calls, 'faultstring', 'faultstring', 'XmlDocument.fault_to_parent')
+    pin_verbatim(calls, 'faultactor', 'faultactor', 'XmlDocument.fault_to_parent')
+    scls = find_class(parse(repo, 'spyne/protocol/soap/soap12.py'), 'Soap12')
+    calls = fault_writer_calls(scls, 'fault_to_parent', 'Soap12.fault_to_parent')
+    pin_verbatim(calls, 'Text', 'faultstring', 'Soap12.fault_to_parent', kw=('lang', 'lang'))
+    pin_verbatim(calls, 'Role', 'faultactor', 'Soap12.fault_to_parent')
+    # which function each modelled XML protocol really dispatches a Fault to
+    for con, mod, cn in PROTOCOLS:
+        if con not in ('PXml', 'PSoap11', 'PSoap12'):
+            continue
+        c = getattr(importlib.import_module(mod), cn)
+        want = 'Soap12.fault_to_parent' if con == 'PSoap12' else 'XmlDocument.fault_to_parent'
+        if c.fault_to_parent.__qualname__ != want:
+            raise TranslateError('%s.fault_to_parent resolves to unmodelled %s' % (cn, c.fault_to_parent.__qualname__))
+
+
 # ------------------------------------------------------------------ emit
 def generate(repo):
     order, mro, code = error_classes(repo)
@@ -673,6 +793,7 @@ def generate(repo):
     fs = fault_string_fn(app_tree)
     steps, handlers = funnel(app_tree)
     w_first, w_ser, w_join, w_ok, w_after, w_es = wsgi_tables(repo)
+    xml_fault_writers(repo)
     E = lambda k: 'E_' + k
     o = ['(* GENERATED by harness/translate/faultpipe.py from spyne/error.py, spyne/protocol/_outbase.py,',
          '   spyne/protocol/soap/soap11.py, spyne/application.py and spyne/server/wsgi.py.  Do not edit. *)',
